@@ -293,6 +293,10 @@ def corr_malformed(ck, unpack_mod, mols, rng):
             continue
         except ValueError:
             pass
+        except Exception as e:
+            ck.counterexample(f'limits-not-checked:{list(m._atoms)[:3]}', f'MoleculeContainer.pack raises {type(e).__name__} instead of ValueError on a molecule outside the documented limits',
+                              {'numbers': list(m._atoms)}, repr(e), 'ValueError', 'documented limits')
+            continue
         cases.append(f'pyres_eqb (list_eqb Z.eqb) (mol_pack true {pmol_term(m, bytes(9 * len(m) + 13))}) (Err ValueError)')
         meta.append(('outside', list(m._atoms)[:3]))
     for kind, m in picked[:10]:
